@@ -78,4 +78,6 @@ const (
 	UserTypeIsNotAnObject                               = "the user type is not an object"
 	ProcessTypeErr                                      = "process type"
 	FailedToComputeScannersHash                         = "failed to compute the scanner's hash"
+
+	ThereIsNoDirectiveForOpening = "there is no directive to open with this opening parenthesis, learn more about the explicit direcitve boundaries here: https://jsight.io/docs/jsight-api-0-3#boundaries-of-the-body-of-the-directive" //nolint:lll
 )
